@@ -560,6 +560,11 @@ for _k in ("text",):
         for _v in ("^", "-", "_"):
             for _c, _r in ((True, True), (False, False), (True, False), (False, True)):
                 content_unit(_k, _h, _v, _c, _r)
+# no alignment named in the widget's format specifier (the commonest way to create the widget): centre / middle, as the render is
+for _c, _r in ((True, True), (False, False), (True, False), (False, True)):
+    content_unit("text", None, None, _c, _r)
+content_unit("text", None, "^", True, True)
+content_unit("text", "<", None, True, True)
 for _k in ("kitty", "iterm2"):
     for _c, _r in ((True, True), (False, False), (True, False), (False, True)):
         content_unit(_k, "|", "-", _c, _r)
